@@ -12,7 +12,7 @@ from pv.core import Sub, Fail, exc_fail
 ID = "C01"
 LEVEL = "exploration"
 RULE = ("Sub 'schedules': Hypothesis draws (catalogue entry [+ strategy variant for sort-backed entries], sources, a schedule "
-        "of <=24 new/advance/drop actions over 3 iterator slots, 1-2 final fresh passes); every advance must return the "
+        "of <=24 new/advance/drop/drain actions over 3 iterator slots, optionally opened by a completed pass, 1-2 final fresh passes); every advance must return the "
         "next item of a solo pass over an identically built view (StopIteration exactly at its end) and fresh passes must "
         "equal the solo pass. Sub 'interleavings' (thorough tier): for every entry/variant and a fixed 3-row source, ALL "
         "interleavings of two iterators (second iterator created at any point, each advanced 0..len+1 times, so every "
@@ -83,8 +83,14 @@ def _case(draw, tier, targets):
     S = [draw(catgen.cat_table(ragged=ragged, max_rows=5, cells=e.cells)) for _ in range(e.n)]
     n = draw(gen.sizes(3, 24))
     # slot 0 and 1 are favoured so that two iterators are usually live together
-    acts = draw(st.lists(st.tuples(st.sampled_from(["adv", "adv", "adv", "adv", "adv", "adv", "adv", "new", "drop"]),
+    acts = draw(st.lists(st.tuples(st.sampled_from(["adv"] * 14 + ["new", "new", "drop", "drop", "drain"]),
                                    st.sampled_from([0, 1, 0, 1, 2])), min_size=n, max_size=n))
+    # structured openings: a completed pass (optionally with another iterator already live) before the interleaving starts
+    opening = draw(st.sampled_from(["none", "none", "none", "pass-first", "pass-beside-live"]))
+    if opening == "pass-first":
+        acts = [("drain", 0), ("new", 0), ("new", 1)] + acts
+    elif opening == "pass-beside-live":
+        acts = [("new", 1), ("adv", 1), ("drain", 0), ("new", 0)] + acts
     up = draw(st.sampled_from(["none", "none", "none"] + sorted(UPSTREAM))) if (e.n >= 1 and not e.has("file") and not e.cells) else "none"
     return {"entry": name, "variant": variant, "sources": S, "schedule": [list(a) for a in acts],
             "fresh": draw(st.integers(1, 2)), "upstream": up}
@@ -117,7 +123,7 @@ def run_schedule(case, ctx):
     last = None
     switched_after_data = False
     for kind, s in case["schedule"]:
-        if kind == "adv" and s not in its:
+        if kind in ("adv", "drain") and s not in its:
             kind = "new"
         if kind == "new":
             try:
@@ -127,26 +133,31 @@ def run_schedule(case, ctx):
         elif kind == "drop":
             its.pop(s, None)
         else:
-            it, pos = its[s]
-            try:
-                r = norm(next(it))
-            except StopIteration:
-                if pos != len(solo):
-                    return Fail("%s/%s/early-stop" % (e.name, variant),
-                                "iterator stopped at position %d, solo pass has %d items" % (pos, len(solo)))
-            except Exception as ex:
-                return exc_fail("%s/%s" % (e.name, variant), ex)
-            else:
-                if pos >= len(solo):
-                    return Fail("%s/%s/extra-row" % (e.name, variant),
-                                "iterator yielded %r beyond the solo pass (%d items)" % (r, len(solo)))
-                if r != solo[pos]:
-                    return Fail("%s/%s/wrong-row" % (e.name, variant),
-                                "position %d: got %r, solo pass has %r" % (pos, r, solo[pos]))
-                its[s][1] = pos + 1
-                if last is not None and last != s and len(its) >= 2 and any(p >= 2 for _, p in its.values()):
-                    switched_after_data = True
-                last = s
+            # "adv": one next(); "drain": next() until the iterator is exhausted (a completed pass while others are live)
+            while True:
+                it, pos = its[s]
+                try:
+                    r = norm(next(it))
+                except StopIteration:
+                    if pos != len(solo):
+                        return Fail("%s/%s/early-stop" % (e.name, variant),
+                                    "iterator stopped at position %d, solo pass has %d items" % (pos, len(solo)))
+                    break
+                except Exception as ex:
+                    return exc_fail("%s/%s" % (e.name, variant), ex)
+                else:
+                    if pos >= len(solo):
+                        return Fail("%s/%s/extra-row" % (e.name, variant),
+                                    "iterator yielded %r beyond the solo pass (%d items)" % (r, len(solo)))
+                    if r != solo[pos]:
+                        return Fail("%s/%s/wrong-row" % (e.name, variant),
+                                    "position %d: got %r, solo pass has %r" % (pos, r, solo[pos]))
+                    its[s][1] = pos + 1
+                    if last is not None and last != s and len(its) >= 2 and any(p >= 2 for _, p in its.values()):
+                        switched_after_data = True
+                    last = s
+                if kind == "adv":
+                    break
         live_max = max(live_max, len(its))
     for p in range(case["fresh"]):
         try:
